@@ -77,7 +77,16 @@ RULE = (
     'mutated valid PDU, or the victim replied to a frame, or a frame raised inside the stack; distinct by '
     '(world, opened protocols, frames). parser cases: bytes (random or mutated valid PDUs) into each parser / '
     'assembler / AT reader, fresh objects per input; non-trivial = the parser accepted the input or a stateful '
-    'reader was left mid-message.'
+    'reader was left mid-message. client-role cases (targets gattc / sdpc / avdtpc): the victim runs its OWN client '
+    '(Connection.gatt_client on the LE link; sdp.Client and avdtp.Protocol.connect towards a genuine server on the '
+    'classic peer, detached after the set-up) with 0..2 calls outstanding (one stratum per call kind) while the peer '
+    'sends 1..16 mutated RESPONSES: registry-built and hand-made answers, half of them of the kind the outstanding call '
+    'waits for, carrying the transaction identifier / label of the victim\'s latest request (origins mutp / validp), '
+    'silences of 29 / 31 s across the 30 s GATT time-out; non-trivial additionally when a hostile frame ended one of '
+    'the calls. burst cases: the ordinary world cases with 2 / 3 / all frames delivered back to back (no loop '
+    'iteration in between; quiescence and the event budget apply to the burst). directed: a request that leaves a '
+    'partial SDP response behind (maximum byte count 0/1/7/20) followed by 1 or 3 requests of each of the three '
+    'kinds that carry the server\'s own continuation state (144 cases, a sixth of them in the quick tier).'
 )
 ASSUMPTIONS = [
     '"terminates promptly" = at most CAP interpreter events (sys.monitoring LINE+JUMP) while the virtual loop '
@@ -94,8 +103,16 @@ ASSUMPTIONS = [
     'and within its credits (harness-side model); otherwise the spec lets the receiver close the channel',
     'ordinary exceptions (loop exception handler, logger.exception, raised out of Host.on_packet) are counted '
     'in labels, never failures; RecursionError / MemoryError are violations',
+    'client role: "a subsequent well-formed request is answered correctly" is read from the victim\'s side as: once '
+    'every request its client has put on the wire got a well-formed negative answer from the harness (ATT Error '
+    'Response Attribute Not Found, SDP Error Response, AVDTP Response Reject; the outcome of those calls is '
+    'ignored, any result or ordinary exception will do), none of the victim\'s calls is still waiting, and a fresh call '
+    '(read_value / search_attributes / discover_remote_endpoints) whose requests the harness answers well-formed '
+    'returns the right value; the ordinary server-side references of the same link are judged as well',
+    'a call that the victim\'s own API refuses on the spot (sdp.Client takes one call at a time) is not counted as '
+    'ended by a hostile frame',
 ]
-SHRINK_KEYS = ('frames', 'chunks')
+SHRINK_KEYS = ('frames', 'chunks', 'pending')
 
 CAP = 5_000_000
 QUIET_AFTER = 1.5
@@ -388,6 +405,220 @@ async def build_le(rig: Rig, case) -> None:
     if 'coc' in rig.opens:
         rig.refs.append(('coc', {'link', 'chan:coc'}, ref_coc))
     rig.refs.append(('hci', set(), ref_hci))
+    if 'gattc' in rig.opens:
+        # client role: the victim's own GATT client (Connection.gatt_client) talks to the hostile peer on CID 4
+        rig.state['gattc'] = rig.vconn.gatt_client
+        rig.chans['gattc'] = {'send': lambda d: raw_send(4, d), 'peer_cid': 4, 'victim_cid': 4}
+        rig.refs.insert(0, ('gattc', {'link'}, ref_gattc))
+    await _start_pending(rig, case)
+
+
+# -- client role: the victim has requests of its own outstanding ---------------
+GATTC_VALUE = b'C17 peer value'
+CLIENT_OPS = {
+    'gattc': ['read', 'read', 'read_long', 'disc', 'disc_uuid', 'attrs', 'by_uuid', 'write', 'mtu'],
+    'sdpc': ['search_attributes', 'search_attributes', 'search_services', 'get_attributes'],
+    'avdtpc': ['discover', 'discover', 'caps', 'getcfg'],
+}
+
+
+def _client_op(rig: Rig, target: str, op: str):
+    b = B()
+    if target == 'gattc':
+        c = rig.state['gattc']
+        return {
+            'read': lambda: c.read_value(0x0031, no_long_read=True), 'read_long': lambda: c.read_value(0x0031),
+            'disc': lambda: c.discover_services(), 'disc_uuid': lambda: c.discover_service(b.core.UUID.from_16_bits(0x180F)),
+            'attrs': lambda: c.discover_attributes(),
+            'by_uuid': lambda: c.read_characteristics_by_uuid(b.core.UUID.from_16_bits(0x2A19), None),
+            'write': lambda: c.write_value(0x0032, b'C17', with_response=True), 'mtu': lambda: c.request_mtu(64),
+        }[op]()
+    if target == 'sdpc':
+        c = rig.state['sdpc']
+        uuid = b.core.UUID(KNOWN_UUID128)
+        return {
+            'search_attributes': lambda: c.search_attributes([uuid], [(0x0000, 0xFFFF)]),
+            'search_services': lambda: c.search_services([uuid]),
+            'get_attributes': lambda: c.get_attributes(SDP_HANDLE, [(0x0000, 0xFFFF)]),
+        }[op]()
+    c = rig.state['avdtpc']
+    return {'discover': c.discover_remote_endpoints, 'caps': lambda: c.get_capabilities(1),
+            'getcfg': lambda: c.get_configuration(1)}[op]()
+
+
+async def _guarded(coro, box: dict):
+    try:
+        box['result'] = await coro
+    except asyncio.CancelledError:
+        raise
+    except Exception as e:  # noqa: BLE001 - judged by the reference (RecursionError / MemoryError are violations)
+        box['exc'] = e
+
+
+async def _start_pending(rig: Rig, case) -> None:
+    """Client-role targets: the victim issues `case['pending']` calls of its own; nobody answers them (yet)."""
+    rig.state['mark0'] = len(rig.link.acl_log)
+    rig.state['answered'] = 0
+    pend = []
+    target = case.get('target')
+    for op in (case.get('pending') or []) if target in CLIENT_OPS else []:
+        box: dict = {}
+        pend.append((op, asyncio.get_running_loop().create_task(_guarded(_client_op(rig, target, op), box)), box))
+    rig.state['pending'] = pend
+    if pend:
+        await asyncio.sleep(0.05)
+        for _op, task, box in pend:
+            if task.done():
+                box['early'] = True  # refused on the spot (sdp.Client takes one call at a time)
+
+
+def _client_requests(rig: Rig, target: str) -> list:
+    """What the victim's client sent on the target channel since the set-up ended, oldest first: (bytes)."""
+    got = rig.from_victim(rig.state['mark0'], rig.chans[target]['peer_cid'])
+    if target == 'gattc':
+        # requests only (even opcode, no command bit, not a confirmation); odd opcodes are its server's answers
+        return [p for p in got if p and not p[0] & 1 and not p[0] & 0x40 and p[0] != 0x1E]
+    if target == 'avdtpc':
+        return [p for p in got if len(p) >= 2 and p[0] & 0x0F == 0]  # single-packet commands
+    return [p for p in got if len(p) >= 5]
+
+
+def _client_patch(rig: Rig, target: str, data: bytes) -> bytes:
+    """'...p' origins: the hostile peer copies the transaction identifier of the victim's latest request."""
+    reqs = _client_requests(rig, target) if target in ('sdpc', 'avdtpc') else []
+    if not reqs or not data:
+        return data
+    if target == 'sdpc' and len(data) >= 3:
+        return data[:1] + reqs[-1][1:3] + data[3:]
+    if target == 'avdtpc':
+        return bytes([(reqs[-1][0] & 0xF0) | (data[0] & 0x0F)]) + data[1:]
+    return data
+
+
+def _client_refusal(target: str, req: bytes) -> bytes:
+    """A well-formed negative answer to one outstanding request of the victim's client."""
+    if target == 'gattc':
+        return bytes([0x01, req[0]]) + (req[1:3] if len(req) >= 3 else b'\x00\x00') + bytes([0x0A])
+    if target == 'sdpc':
+        return bytes([0x01]) + req[1:3] + bytes([0x00, 0x02, 0x00, 0x03])
+    return bytes([(req[0] & 0xF0) | 0x03, req[1] & 0x3F, 0x19])  # Response Reject, NOT_SUPPORTED_COMMAND
+
+
+def _client_drain(rig: Rig, target: str):
+    """Every request the victim's client has on the wire gets a well-formed refusal (outcome ignored); afterwards
+    none of the victim's calls may still be waiting."""
+    pend = rig.state.get('pending') or []
+    for _ in range(10):
+        if all(t.done() for _op, t, _box in pend):
+            break
+        reqs = _client_requests(rig, target)
+        if len(reqs) <= rig.state['answered']:
+            break
+        for req in reqs[rig.state['answered']:]:
+            rig.chans[target]['send'](_client_refusal(target, req))
+        rig.state['answered'] = len(reqs)
+        rig.run(0.3)
+    for _op, _t, box in pend:
+        if isinstance(box.get('exc'), (RecursionError, MemoryError)):
+            return (f'pending_{type(box["exc"]).__name__}', f'a call of the victim\'s {target} client ended with {box["exc"]!r}')
+    stuck = [op for op, t, _box in pend if not t.done()]
+    for _op, t, _box in pend:
+        if not t.done():
+            t.cancel()
+    if stuck:
+        rig.run(0.1)
+        return ('pending_stuck', f'the victim\'s {target} client calls {stuck} were still waiting after every request it '
+                                 f'had sent was answered with a well-formed error response')
+    rig.state['answered'] = len(_client_requests(rig, target))
+    return None
+
+
+def _client_call(rig: Rig, target: str, coro, answer, rounds: int = 4):
+    """Fresh call of the victim's client; `answer(request bytes) -> response bytes | None` plays the well-formed peer."""
+    box: dict = {}
+    task = rig.loop.create_task(_guarded(coro, box))
+    sent = 0
+    for _ in range(rounds):
+        rig.run(0.3)
+        if task.done():
+            break
+        reqs = _client_requests(rig, target)
+        new = reqs[rig.state['answered']:]
+        rig.state['answered'] = len(reqs)
+        for req in new:
+            rsp = answer(req)
+            if rsp is not None:
+                sent += 1
+                rig.chans[target]['send'](rsp)
+    if not task.done():
+        rig.run(0.5)
+    if not task.done():
+        task.cancel()
+        rig.run(0.1)
+        if not sent:
+            return ('request_not_sent', f'a fresh call of the victim\'s {target} client put no (answerable) request on the wire'), box
+        return ('no_completion', f'a fresh call of the victim\'s {target} client did not finish although the peer answered it'), box
+    if 'exc' in box:
+        return (f'raises_{type(box["exc"]).__name__}', f'a fresh call of the victim\'s {target} client, answered well-formed, '
+                                                      f'raised {box["exc"]!r}'), box
+    return None, box
+
+
+def ref_gattc(rig: Rig):
+    r = _client_drain(rig, 'gattc')
+    if r is not None:
+        return r
+    handle = 0x0042
+    want = bytes([0x0A]) + struct.pack('<H', handle)
+    r, box = _client_call(rig, 'gattc', rig.state['gattc'].read_value(handle, no_long_read=True),
+                          lambda req: bytes([0x0B]) + GATTC_VALUE if req == want else None)
+    if r is not None:
+        return r
+    if box.get('result') != GATTC_VALUE:
+        return ('wrong_answer', f'GATT client read_value returned {box.get("result")!r} instead of {GATTC_VALUE!r}')
+    return None
+
+
+def ref_sdpc(rig: Rig):
+    r = _client_drain(rig, 'sdpc')
+    if r is not None:
+        return r
+    req0, rsp0, want = rig.state['sdpc_ref']
+    b = B()
+    r, box = _client_call(
+        rig, 'sdpc', rig.state['sdpc'].search_attributes([b.core.UUID(KNOWN_UUID128)], [(0x0000, 0xFFFF)]),
+        lambda req: rsp0[:1] + req[1:3] + rsp0[3:] if req[:1] + req[3:] == req0[:1] + req0[3:] else None)
+    if r is not None:
+        return r
+    if str(box.get('result')) != want:
+        return ('wrong_answer', f'SDP client search_attributes returned {str(box.get("result"))[:200]} instead of {want[:200]}')
+    return None
+
+
+def _endpoints_summary(eps) -> str:
+    return str([(e.seid, int(e.media_type), int(e.tsep), int(e.in_use), [str(c) for c in e.capabilities]) for e in eps])
+
+
+def ref_avdtpc(rig: Rig):
+    r = _client_drain(rig, 'avdtpc')
+    if r is not None:
+        return r
+    by_signal, want = rig.state['avdtpc_ref']
+
+    def answer(req):
+        rsp = by_signal.get(req[1] & 0x3F)
+        return None if rsp is None else bytes([(req[0] & 0xF0) | (rsp[0] & 0x0F)]) + rsp[1:]
+
+    r, box = _client_call(rig, 'avdtpc', rig.state['avdtpc'].discover_remote_endpoints(), answer, rounds=6)
+    if r is not None:
+        return r
+    try:
+        got = _endpoints_summary(list(box.get('result') or []))
+    except Exception as e:  # noqa: BLE001
+        got = repr(e)
+    if got != want:
+        return ('wrong_answer', f'AVDTP discover_remote_endpoints returned {got[:200]} instead of {want[:200]}')
+    return None
 
 
 # -- references (LE) ---------------------------------------------------------
@@ -692,6 +923,45 @@ async def build_classic(rig: Rig, case) -> None:
             raise HarnessError(f'AVCTP set-up exchange is not a single command/response ({events})')
         rig.state['avctp_ref'] = (req[0], rsp[0])
         rig.refs.append(('avctp', {'link', 'chan:avctp'}, ref_avctp))
+    if 'sdpc' in opens:
+        # client role: the victim's sdp.Client queries the peer's (genuine) SDP server, which is detached afterwards
+        peer.device.sdp_service_records = {SDP_HANDLE: _known_record()}
+        mark = len(rig.link.acl_log)
+        vclient = b.sdp.Client(conn_v)
+        await vclient.connect()
+        found = await vclient.search_attributes([b.core.UUID(KNOWN_UUID128)], [(0x0000, 0xFFFF)])
+        if not any(a.id == 0x0100 and a.value.value == KNOWN_TEXT for rec in found for a in rec):
+            raise HarnessError(f'sdpc set-up query did not return the known record: {found}')
+        pch = peer.device.sdp_server.channel
+        dyn('sdpc', pch)
+        _detach(pch, sink_store)
+        req = rig.from_victim(mark, pch.source_cid)
+        rsp = rig.to_victim(mark, pch.destination_cid)
+        if len(req) != 1 or len(rsp) != 1:
+            raise HarnessError('sdpc set-up exchange is not a single request/response')
+        rig.state['sdpc'] = vclient
+        rig.state['sdpc_ref'] = (req[0], rsp[0], str(found))
+        rig.refs.insert(0, ('sdpc', {'link', 'chan:sdpc'}, ref_sdpc))
+    if 'avdtpc' in opens:
+        # client role: the victim initiates AVDTP towards the peer's (genuine) acceptor, which is detached afterwards
+        servers: list = []
+        plistener = b.avdtp.Listener.for_device(peer.device)
+        plistener.on('connection', lambda server: (server.add_sink(_sink_caps()), servers.append(server)))
+        mark = len(rig.link.acl_log)
+        vproto = await b.avdtp.Protocol.connect(conn_v)
+        eps = list(await vproto.discover_remote_endpoints())
+        if len(eps) != 1 or not servers:
+            raise HarnessError(f'avdtpc set-up discovered {eps}')
+        pch = servers[0].l2cap_channel
+        dyn('avdtpc', pch)
+        _detach(pch, sink_store)
+        reqs = [p for p in rig.from_victim(mark, pch.source_cid) if len(p) >= 2 and p[0] & 0x0F == 0]
+        rsps = [p for p in rig.to_victim(mark, pch.destination_cid) if len(p) >= 2 and p[0] & 0x0F == 0x02]
+        if len(reqs) != 2 or len(rsps) != 2 or [p[1] & 0x3F for p in reqs] != [p[1] & 0x3F for p in rsps]:
+            raise HarnessError('avdtpc set-up: Discover / Get Capabilities exchanges not found')
+        rig.state['avdtpc'] = vproto
+        rig.state['avdtpc_ref'] = ({p[1] & 0x3F: p for p in rsps}, _endpoints_summary(eps))
+        rig.refs.insert(0, ('avdtpc', {'link', 'chan:avdtpc'}, ref_avdtpc))
     rig.refs.append(('hci', set(), ref_hci))
     # the peer plays a NON-Bumble device from here on: its own ATT/SMP layers must not converse with the
     # victim's answers (two Bumble SMP layers can exchange Pairing Random / Pairing Failed for ever)
@@ -699,6 +969,7 @@ async def build_classic(rig: Rig, case) -> None:
     for cid in list(manager.fixed_channels):
         if cid not in (1, 5):
             manager.fixed_channels[cid] = lambda _handle, pdu: sink_store.append(bytes(pdu))
+    await _start_pending(rig, case)
 
 
 def ref_echo(rig: Rig):
@@ -1026,6 +1297,26 @@ def _registry(chan: str, info: dict):
             for cr in (0, 1):
                 frames.append(F.uih(cr, 0, m))
         hand_out.append(st.sampled_from(sorted({bytes(f) for f in frames})))
+    if chan == 'gattc':
+        # what a hostile GATT *server* sends to the victim's client: responses (odd opcodes) first of all
+        for op, cls in sorted(b.att.ATT_PDU.pdu_classes.items()):
+            if op & 1:
+                out.append(_wire_strategy(cls, lambda w, op=op: bytes([op]) + w, 40))
+        hand_out.append(st.sampled_from(_client_hand('gattc')))
+    if chan == 'sdpc':
+        hand_out.append(st.sampled_from(_client_hand('sdpc')))
+        # deeply nested attribute lists: parsed when the transaction completes
+        hand_out.append(st.tuples(NEST_DEPTH, st.sampled_from([0x35, 0x36, 0x3D]), st.sampled_from([0, 0, 1, 2]), st.sampled_from([5, 7]),
+                                  st.integers(0, 3)).map(
+            lambda t: (lambda body: _sdp_pdu(t[3], t[4], struct.pack('>H', len(body) & 0xFFFF) + body + b'\x00'))(sdp_nested(t[0], t[1], 6, t[2])[5:-10])))
+    if chan == 'avdtpc':
+        for sig, by_type in sorted(b.avdtp.Message.subclasses.items()):
+            for mtype, cls in sorted(by_type.items()):
+                if int(mtype) == 0:
+                    continue  # responses, accepts and rejects (commands come through the hand-made list)
+                out.append(st.tuples(st.integers(0, 15), _fields(cls.fields, 30)).map(
+                    lambda t, sig=sig, mtype=mtype: bytes([t[0] << 4 | int(mtype), int(sig)]) + t[1][1]))
+        hand_out.append(st.sampled_from(_client_hand('avdtpc')))
     if chan == 'at':
         out.append(st.sampled_from(AT_LINES))
         out.append(st.lists(st.sampled_from(AT_LINES), min_size=2, max_size=4).map(b''.join))
@@ -1039,6 +1330,122 @@ def _registry(chan: str, info: dict):
     if chan == 'hci':
         out.append(hci_seed_strategy(info))
     return out, hand_out
+
+
+def _sdp_pdu(pid: int, tid: int, params: bytes) -> bytes:
+    return bytes([pid]) + struct.pack('>HH', tid, len(params)) + params
+
+
+_CLIENT_HAND: dict = {}
+
+
+def _client_hand(chan: str) -> list:
+    """Hand-made answers of a hostile SERVER / acceptor to the victim's client (valid ones and near misses)."""
+    if chan in _CLIENT_HAND:
+        return _CLIENT_HAND[chan]
+    b = B()
+    if chan == 'gattc':
+        u16 = lambda *v: b''.join(struct.pack('<H', x) for x in v)
+        hand = [bytes([0x01, rq]) + u16(h) + bytes([code]) for rq in (0x02, 0x04, 0x06, 0x08, 0x0A, 0x0C, 0x10, 0x12, 0x16, 0x18)
+                for h, code in ((0x0031, 0x0A), (0x0001, 0x0A), (0, 0x01), (0xFFFF, 0x0E))]
+        hand += [bytes([0x03]) + u16(23), bytes([0x03]) + u16(0), bytes([0x03]) + u16(0xFFFF), bytes([0x03]) + u16(5),
+                 bytes([0x0B]) + b'value', bytes([0x0B]), bytes([0x0B]) + bytes(22), bytes([0x0B]) + bytes(63), bytes([0x0D]) + bytes(22),
+                 bytes([0x0D]), bytes([0x0D]) + b'tail', bytes([0x13]), bytes([0x17]) + u16(0x32, 0) + b'C17', bytes([0x19]),
+                 # Read By Group Type Response: length octet, then (handle, end group handle, uuid) entries
+                 bytes([0x11, 6]) + u16(1, 5, 0x1800) + u16(6, 9, 0x180F), bytes([0x11, 6]) + u16(1, 0xFFFF, 0x1800),
+                 bytes([0x11, 6]) + u16(1, 5, 0x1800) + u16(3, 2, 0x180F), bytes([0x11, 6]) + u16(9, 1, 0x1800),
+                 bytes([0x11, 6]) + u16(1, 1, 0x1800), bytes([0x11, 6]) + u16(0xFFFE, 0xFFFE, 0x1800), bytes([0x11, 0]), bytes([0x11, 6]),
+                 bytes([0x11, 4]) + u16(1, 5), bytes([0x11, 5]) + u16(1, 5) + b'\x18', bytes([0x11, 20]) + u16(1, 5) + bytes(16),
+                 bytes([0x11, 255]) + u16(1, 5, 0x1800), bytes([0x11, 6]) + u16(1, 5, 0x1800) + u16(6),
+                 # Read By Type Response: length octet, then (handle, value) entries
+                 bytes([0x09, 7]) + u16(2) + bytes([0x02]) + u16(3, 0x2A19), bytes([0x09, 3]) + u16(0x31) + b'x',
+                 bytes([0x09, 3]) + u16(0xFFFF) + b'x', bytes([0x09, 3]) + u16(0) + b'x', bytes([0x09, 2]) + u16(3), bytes([0x09, 0]),
+                 bytes([0x09, 1]) + b'abc', bytes([0x09, 7]) + u16(2) + bytes([0x02]) + u16(3), bytes([0x09, 21]) + u16(2) + bytes(19),
+                 # Find Information Response: format, then (handle, uuid) entries; Find By Type Value Response: handle ranges
+                 bytes([0x05, 1]) + u16(1, 0x2800, 2, 0x2803), bytes([0x05, 1]) + u16(0xFFFF, 0x2800), bytes([0x05, 1]) + u16(0, 0x2800),
+                 bytes([0x05, 2]) + u16(1) + bytes(16), bytes([0x05, 3]) + u16(1, 2), bytes([0x05, 1]), bytes([0x05, 1]) + u16(1),
+                 bytes([0x05, 0]) + u16(1, 2), bytes([0x07]) + u16(1, 5), bytes([0x07]) + u16(1, 0xFFFF), bytes([0x07]) + u16(5, 1),
+                 bytes([0x07]) + u16(1, 5, 6), bytes([0x07]), bytes([0x0F]) + bytes(8), bytes([0x21, 1, 2]),
+                 # server-initiated: notifications, indications (the client must confirm), multiple-value notification
+                 bytes([0x1B]) + u16(0x31) + b'n', bytes([0x1B]) + u16(0x31), bytes([0x1B, 0x31]), bytes([0x1D]) + u16(0x31) + b'i',
+                 bytes([0x1D]) + u16(0), bytes([0x1D]), bytes([0x23]) + u16(0x31, 1) + b'm', bytes([0x23]) + u16(0x31, 9) + b'm',
+                 # a request: the victim is a server at the same time
+                 bytes([0x0A]) + u16(3), bytes([0x02]) + u16(100)]
+    elif chan == 'sdpc':
+        s = b.sdp
+        rec = bytes(s.DataElement.sequence([s.DataElement.sequence([
+            s.DataElement.unsigned_integer_16(0x0100), s.DataElement.text_string(b'hostile')])]))
+        one = bytes(s.DataElement.sequence([s.DataElement.unsigned_integer_16(0x0100), s.DataElement.text_string(b'hostile')]))
+        pdu = _sdp_pdu
+        hand = []
+        for tid in (0, 1, 2, 3):
+            for cont in (b'\x00', b'\x01\x00', b'\x02\xAA\xBB', b'\x10' + bytes(16), b'\x11' + bytes(17), b''):
+                hand.append(pdu(7, tid, struct.pack('>H', len(rec)) + rec + cont))
+                hand.append(pdu(5, tid, struct.pack('>H', len(one)) + one + cont))
+                hand.append(pdu(3, tid, struct.pack('>HH', 1, 1) + struct.pack('>I', SDP_HANDLE) + cont))
+            hand.append(pdu(1, tid, struct.pack('>H', 3)))
+            hand.append(pdu(1, tid, b''))
+            hand.append(pdu(7, tid, struct.pack('>H', 0) + b'\x00'))
+            hand.append(pdu(7, tid, struct.pack('>H', 2) + b'\x35\x00' + b'\x00'))
+            hand.append(pdu(7, tid, struct.pack('>H', 3) + b'\x35\x08\x35' + b'\x00'))  # element longer than the list
+            hand.append(pdu(7, tid, struct.pack('>H', 1) + b'\x08' + b'\x00'))  # an integer, not a sequence
+            hand.append(pdu(7, tid, struct.pack('>H', 0xFFFF) + rec + b'\x00'))
+            hand.append(pdu(5, tid, struct.pack('>H', 2) + b'\x35\x00' + b'\x00'))
+            hand.append(pdu(3, tid, struct.pack('>HH', 0xFFFF, 0xFFFF) + b'\x00'))
+            hand.append(pdu(3, tid, struct.pack('>HH', 1, 3) + struct.pack('>I', SDP_HANDLE) + b'\x00'))
+            hand.append(pdu(3, tid, struct.pack('>HH', 0, 0) + b'\x00'))
+            hand.append(pdu(6, tid, b'\x35\x03\x19\x11\x01\x00\x10\x35\x05\x0a\x00\x00\xff\xff\x00'))  # a request
+    else:
+        ep = lambda seid, in_use=0, mt=0, tsep=1: bytes([seid << 2 | in_use << 1, mt << 4 | tsep << 3])
+        caps = bytes([1, 0, 7, 6, 0, 0, 0x21, 0x15, 2, 53])
+        hand = []
+        for lab in (0, 1, 2, 3):
+            hand += [bytes([lab << 4 | 2, 0x01]) + ep(1), bytes([lab << 4 | 2, 0x01]) + ep(1) + ep(2) + ep(3, 1), bytes([lab << 4 | 2, 0x01]),
+                     bytes([lab << 4 | 2, 0x01]) + ep(1)[:1], bytes([lab << 4 | 2, 0x01]) + ep(0) + ep(63) + ep(1), bytes([lab << 4 | 2, 0x01]) + ep(1) * 40,
+                     bytes([lab << 4 | 2, 0x02]) + caps, bytes([lab << 4 | 2, 0x0C]) + caps, bytes([lab << 4 | 2, 0x0C]), bytes([lab << 4 | 2, 0x0C]) + caps[:5],
+                     bytes([lab << 4 | 2, 0x0C, 7, 200]) + bytes(4), bytes([lab << 4 | 2, 0x0C, 99, 0, 1, 0]), bytes([lab << 4 | 2, 0x04]) + caps,
+                     bytes([lab << 4 | 2, 0x04]), bytes([lab << 4 | 2, 0x03]), bytes([lab << 4 | 2, 0x06]), bytes([lab << 4 | 2, 0x3F]), bytes([lab << 4 | 2, 0x00]),
+                     bytes([lab << 4 | 3, 0x01, 0x19]), bytes([lab << 4 | 3, 0x01]), bytes([lab << 4 | 3, 0x0C, 0x12]), bytes([lab << 4 | 3, 0x03, 1, 0x29]),
+                     bytes([lab << 4 | 3, 0x04, 0x12]), bytes([lab << 4 | 1, 0x01]), bytes([lab << 4 | 1]), bytes([lab << 4 | 1, 0x3F]),
+                     bytes([lab << 4 | 0x06, 0x01, 2]) + ep(1), bytes([lab << 4 | 0x0E]) + ep(2), bytes([lab << 4 | 0x0A]) + ep(2),
+                     bytes([lab << 4 | 0x06, 0x0C, 3]) + caps[:4], bytes([lab << 4 | 0x0A]) + caps[4:8], bytes([lab << 4 | 0x0E]) + caps[8:],
+                     bytes([lab << 4 | 0x06, 0x01, 0]), bytes([lab << 4 | 0x06, 0x01]), bytes([lab << 4 | 0x0E]),
+                     bytes([lab << 4, 0x01]), bytes([lab << 4, 0x02, 1 << 2])]
+    _CLIENT_HAND[chan] = hand
+    return hand
+
+
+# which hand-made answers are of the kind the victim's call is waiting for: (first-octet values | signal identifiers)
+CLIENT_ANSWERS = {
+    'gattc': {'read': (0x0B,), 'read_long': (0x0B, 0x0D), 'disc': (0x11,), 'disc_uuid': (0x07,), 'attrs': (0x05,), 'by_uuid': (0x09,),
+              'write': (0x13,), 'mtu': (0x03,)},
+    'sdpc': {'search_attributes': (7,), 'search_services': (3,), 'get_attributes': (5,)},
+    'avdtpc': {'discover': (0x01, 0x0C), 'caps': (0x0C,), 'getcfg': (0x04,)},
+}
+
+
+def _client_good(target: str, f: bytes) -> bool:
+    """Answers that are entirely well-formed (they complete the call or make its procedure go on)."""
+    if target == 'gattc':
+        u16 = lambda *v: b''.join(struct.pack('<H', x) for x in v)
+        return f in (bytes([0x0B]) + b'value', bytes([0x0B]) + bytes(22), bytes([0x0D]) + bytes(22), bytes([0x0D]) + b'tail', bytes([0x13]),
+                     bytes([0x03]) + u16(23), bytes([0x11, 6]) + u16(1, 5, 0x1800) + u16(6, 9, 0x180F), bytes([0x11, 6]) + u16(1, 1, 0x1800),
+                     bytes([0x07]) + u16(1, 5), bytes([0x05, 1]) + u16(1, 0x2800, 2, 0x2803), bytes([0x09, 3]) + u16(0x31) + b'x',
+                     bytes([0x09, 7]) + u16(2) + bytes([0x02]) + u16(3, 0x2A19))
+    if target == 'sdpc':
+        # a complete answer with a plausible byte count and no continuation (the parameter length says where it ends)
+        return f[0] in (3, 5, 7) and len(f) in (14, 22, 24) and f[-1:] == b'\x00' and f[5:7] != b'\xff\xff'
+    return len(f) > 2 and f[0] & 0x0F == 2 and f[1] in (0x01, 0x0C, 0x04) and len(f) in (4, 12)
+
+
+def _client_matching(target: str, op: str) -> list:
+    want = CLIENT_ANSWERS[target][op]
+    if target == 'avdtpc':
+        got = [f for f in _client_hand(target) if len(f) >= 2 and f[0] & 0x0C == 0 and f[0] & 3 and f[1] & 0x3F in want]
+    else:
+        got = [f for f in _client_hand(target) if f[:1] and f[0] in want]
+    good = [f for f in got if _client_good(target, f)]
+    return got + good * max(3, len(got) // max(1, len(good)))  # about one draw in two is entirely well-formed
 
 
 # the DESIGN asks for 1..200; CPython's default recursion limit is only reached beyond ~450 levels here
@@ -1142,6 +1549,7 @@ LEN_FIELDS = {
     'rfcomm': [(2, 1, 'big')], 'coc': [(0, 2, 'little')], 'hci': [(2, 1, 'big'), (3, 2, 'little'), (5, 2, 'little')],
     'avctp': [(3 + 8, 2, 'big'), (3 + 6, 1, 'big')], 'avdtp': [(2, 1, 'big'), (3, 1, 'big')], 'att': [(1, 1, 'big')],
     'smp': [], 'smpbr': [], 'connless': [(0, 2, 'little')], 'at': [], 'athf': [], 'cid': [(2, 2, 'little')],
+    'gattc': [(1, 1, 'big')], 'sdpc': [(3, 2, 'big'), (5, 2, 'big'), (7, 1, 'big'), (8, 1, 'big')], 'avdtpc': [(2, 1, 'big'), (3, 1, 'big')],
 }
 BAD_UTF8 = [b'\xff', b'\xc3\x28', b'\xe2\x82', b'\xf0\x9f', b'\x80', b'\x00']
 
@@ -1295,6 +1703,75 @@ def case_strategy():
     return st.one_of(le, classic, classic)
 
 
+LE_CLIENT_TARGETS = ['gattc']
+CLASSIC_CLIENT_TARGETS = ['sdpc', 'avdtpc']
+
+
+def client_case_strategy(kind: str, target: str, op):
+    """Client role: the victim has calls of its own outstanding (`op`, sometimes a second one; op None = none) that
+    nobody answered while the hostile peer sends mutated RESPONSES; '...p' origins carry the transaction identifier
+    of the victim's latest request."""
+    opens = list(OPEN_SETS[(kind, target)])
+    info = info_for(kind, target)
+    seeds = seed_for(kind, target, info)
+    tag = lambda origin: (lambda fr: [[target, f, origin] for f in (fr if isinstance(fr, list) else [fr])])
+    mut = seeds.flatmap(lambda s: mutated(target, s))
+    groups = [mut.map(tag('mutp')), mut.map(tag('mutp')), mut.map(tag('mut')), seeds.map(tag('validp')),
+              seeds.map(tag('valid')), st.binary(min_size=0, max_size=40).map(tag('rand'))]
+    if op is not None:
+        # answers of the kind the outstanding call waits for (the procedures loop over such answers)
+        match = st.sampled_from(_client_matching(target, op))
+        groups += [match.map(tag('validp')), match.map(tag('validp')), match.map(tag('validp')), match.flatmap(lambda s: mutated(target, s)).map(tag('mutp')),
+                   match.flatmap(lambda s: mutated(target, s)).map(tag('mutp'))]
+    if target == 'gattc':
+        # the GATT client gives up after 30 s: the peer stays silent across that deadline, then goes on
+        groups.append(st.sampled_from([29, 31]).map(lambda k: [[f'sleep:{k}', b'', 'valid']]))
+    frames = st.lists(pick(*groups), min_size=1, max_size=6).map(lambda gs: [f for g in gs for f in g][:16])
+    second = st.one_of(st.just([]), st.just([]), st.sampled_from(CLIENT_OPS[target]).map(lambda o: [o]))
+    pending = st.just([]) if op is None else second.map(lambda more: [op] + more)
+    return st.tuples(frames, pending, st.sampled_from([1, 1, 1, 2, 4])).map(
+        lambda t: {'kind': 'world', 'world': kind, 'target': target, 'open': opens, 'frames': t[0], 'pending': t[1],
+                   **({'burst': t[2]} if t[2] != 1 else {})})
+
+
+def burst_case_strategy():
+    """The ordinary world cases, but 2 / 3 / all frames arrive back to back: the loop does not run in between."""
+    return st.tuples(case_strategy(), st.sampled_from([2, 3, 20])).map(lambda t: {**t[0], 'burst': t[1]})
+
+
+def sdp_continuation_cases() -> list:
+    """Directed: a request that leaves a partial response behind (small maximum byte count), then 1..3 requests of
+    each kind carrying the server's continuation state."""
+    s = B().sdp
+    uuid = s.DataElement.sequence([s.DataElement.uuid(B().core.UUID(KNOWN_UUID128))])
+    ids = s.DataElement.sequence([s.DataElement.unsigned_integer_32(0x0000FFFF)])
+    cont = s.Server.CONTINUATION_STATE
+
+    def req(kind, tid, limit, state):
+        if kind == 'ss':
+            return bytes(s.SDP_ServiceSearchRequest(transaction_id=tid, service_search_pattern=uuid,
+                                                    maximum_service_record_count=limit, continuation_state=state))
+        if kind == 'sa':
+            return bytes(s.SDP_ServiceAttributeRequest(transaction_id=tid, service_record_handle=SDP_HANDLE,
+                                                       maximum_attribute_byte_count=limit, attribute_id_list=ids,
+                                                       continuation_state=state))
+        return bytes(s.SDP_ServiceSearchAttributeRequest(transaction_id=tid, service_search_pattern=uuid,
+                                                         maximum_attribute_byte_count=limit, attribute_id_list=ids,
+                                                         continuation_state=state))
+
+    out = []
+    for first in ('sa', 'ssa'):
+        for limit in (0, 1, 7, 20):
+            for second in ('ss', 'sa', 'ssa'):
+                for limit2 in (0, 7, 0xFFFF):
+                    for repeat in (1, 3):
+                        frames = [['sdp', req(first, 0x10, limit, b'\x00'), 'valid']]
+                        frames += [['sdp', req(second, 0x11 + k, limit2, cont), 'valid'] for k in range(repeat)]
+                        out.append({'kind': 'world', 'world': 'classic', 'target': 'sdp', 'open': ['sdp'], 'frames': frames,
+                                    'family': f'sdp_cont:{first}>{second}'})
+    return out
+
+
 _SEED_CACHE: dict = {}
 
 
@@ -1326,6 +1803,8 @@ OPEN_SETS = {
     ('classic', 'sdp'): ['sdp'], ('classic', 'rfcomm'): ['rfcomm'], ('classic', 'at'): ['at'],
     ('classic', 'athf'): ['athf'], ('classic', 'avdtp'): ['avdtp'], ('classic', 'avctp'): ['avctp'],
     ('classic', 'hci'): ['sdp'], ('classic', 'acl'): ['sdp', 'avdtp'],
+    # client role (the victim's own requests are outstanding)
+    ('le', 'gattc'): ['gattc'], ('classic', 'sdpc'): ['sdpc'], ('classic', 'avdtpc'): ['avdtpc'],
 }
 _INFOS: dict = {}
 _CALIB = {'max_wellformed_events': 0}
@@ -1499,14 +1978,26 @@ def exec_world(case, cap_scale: int = 1) -> Result:
             n_loop_errors = len(loop.errors)
             del catcher.excs[:]
             replied = raised = False
+            mark_frames = len(rig.link.acl_log)
+            burst = max(1, int(case.get('burst') or 1))
             for i, (chan, data, _origin) in enumerate(frames):
                 mark_acl, mark_hci = len(rig.link.acl_log), len(rig.victim.tap.log)
                 mark_err = len(loop.errors) + len(rig.sync_errors) + len(catcher.excs)
+                if _origin.endswith('p') and chan in CLIENT_OPS:
+                    data = _client_patch(rig, chan, data)
                 METER.start(rig.cap, loop)
                 quiet = True
                 try:
-                    inject(rig, chan, data)
-                    quiet = settle(loop)
+                    if chan.startswith('sleep:'):
+                        # the hostile peer stays silent for a while (virtual seconds): time-outs of pending requests
+                        loop.run_for(float(chan[6:]))
+                        if loop.budget_hit:
+                            quiet = False
+                    else:
+                        inject(rig, chan, data)
+                    # burst > 1: `burst` frames arrive back to back, the loop does not run in between
+                    if (i + 1) % burst == 0 or i + 1 == len(frames):
+                        quiet = settle(loop) and quiet
                 except _Trip:
                     pass
                 finally:
@@ -1548,7 +2039,31 @@ def exec_world(case, cap_scale: int = 1) -> Result:
                     res.labels.add({2: 'hci:acl', 3: 'hci:sco', 4: 'hci:event', 5: 'hci:iso'}[d[0]])
                 elif _c == 'hci':
                     res.labels.add('hci:other_type')
-            res.nontrivial = 'mut' in origins or replied or raised
+            res.nontrivial = bool(origins & {'mut', 'mutp', 'validp'}) or replied or raised
+            if case.get('family'):
+                res.labels.add(case['family'])
+            if 'sdp' in rig.chans and any(c == 'sdp' for c, _d, _o in frames):
+                state = B().sdp.Server.CONTINUATION_STATE
+                answers = rig.from_victim(mark_frames, rig.chans['sdp']['peer_cid'])
+                if any(a[:1] != b'\x01' and a.endswith(state) for a in answers):
+                    res.labels.add('sdp:victim_offers_continuation')
+                if any(d.endswith(state) for c, d, _o in frames if c == 'sdp') and any(
+                        a[:1] in (b'\x03', b'\x05', b'\x07') and a[1:3] == d[1:3]
+                        for a in answers for c, d, _o in frames if c == 'sdp' and d.endswith(state) and len(d) > 3):
+                    res.labels.add('sdp:continuation_served')
+            if burst > 1 and len(frames) > 1:
+                res.labels.add('burst')
+            if any(c.startswith('sleep:') for c, _d, _o in frames):
+                res.labels.add('peer_silent_30s')
+            for op, task, box in rig.state.get('pending') or []:
+                res.labels.add(f'client_pending:{target}/{op}')
+                if task.done() and not box.get('early'):
+                    # a hostile frame (or a time-out) ended a call of the victim's own client
+                    res.labels.add(f'client_call_ended_by_hostile:{target}')
+                    res.labels.add('client_call_ended:' + ('result' if 'result' in box else type(box.get('exc')).__name__))
+                    res.nontrivial = True
+            if target in CLIENT_OPS and len(_client_requests(rig, target)) > len(rig.state.get('pending') or []):
+                res.labels.add(f'client_followed_up:{target}')  # a hostile answer made the client send a further request
             if res.trip is None:
                 _references(rig, case, frames, res)
             res.max_events = max(res.max_events, rig.max_events)
@@ -1605,8 +2120,13 @@ def run_world_case(ctx, case, record=True) -> None:
     if record:
         for lab in res.exc_labels:
             ctx.label(lab)
-        ctx.case((case['world'], case.get('open'), [[f[0], bytes(f[1])] for f in case['frames']]), res.nontrivial,
+        fp = (case['world'], case.get('open'), [[f[0], bytes(f[1])] for f in case['frames']])
+        if case.get('pending') or case.get('burst', 1) != 1:
+            fp = fp + (case.get('pending'), case.get('burst'))
+        ctx.case(fp, res.nontrivial,
                  res.labels, sample={'world': case['world'], 'target': case.get('target'),
+                                     **({'pending': case['pending']} if case.get('pending') else {}),
+                                     **({'burst': case['burst']} if case.get('burst', 1) != 1 else {}),
                                      'frames': [[f[0], bytes(f[1]).hex()[:60]] for f in case['frames'][:4]]})
 
 
@@ -2072,18 +2592,43 @@ def run(ctx) -> None:
     if not ctx.quick:
         # keep the whole thorough shard within ~10 minutes whatever the machine load (cases are then cut short and
         # the 'budget_hit:*' labels say so)
-        ctx.budget_s = min(ctx.budget_s, 480.0)
+        # (480 s for the families of the first build + 120 s for the client-role / burst / directed families)
+        ctx.budget_s = min(ctx.budget_s, 600.0)
         run_atheris(ctx)
     # batches, so that an exhausted time budget stops the generation (each batch has its own derived seed)
     total, batch, k = ctx.n(1100, 120000), ctx.pick(1100, 500), 0
-    world_share = 0.7
+    # thorough: fuzzing + world cases may use the first 336 s (as before), the client-role / burst families run until
+    # 144 s are left, the parser batches take the rest (144 s, as before)
+    world_until, extra_until = ctx.budget_s - 336.0, 144.0
     strategy = case_strategy()
-    while total > 0 and not (not ctx.quick and ctx.time_left() < ctx.budget_s * (1 - world_share)):
+    while total > 0 and not (not ctx.quick and ctx.time_left() < world_until):
         ctx.hyp(f'world/{k}', lambda c: run_world_case(ctx, c), strategy, max_examples=min(batch, total))
         total -= batch
         k += 1
     if total > 0:
         ctx.labels['budget_hit:world'] += total
+    # client role (the victim's own requests outstanding) and bursts (no loop iteration between frames)
+    strata = [(kind, t, op) for kind, targets in (('le', LE_CLIENT_TARGETS), ('classic', CLASSIC_CLIENT_TARGETS)) for t in targets
+              for op in [None] + sorted(set(CLIENT_OPS[t]))]
+    batches = [(f'client/{t}/{op}', client_case_strategy(kind, t, op), ctx.n(9, 24000 // len(strata))) for kind, t, op in strata]
+    batches.append(('burst', burst_case_strategy(), ctx.n(70, 12000)))
+    # directed: SDP requests that carry the server's own continuation state (every shard runs the whole family)
+    for i, c in enumerate(sdp_continuation_cases()):
+        if ctx.quick and i % 6 != ctx.seed % 6:
+            continue
+        if ctx.out_of_time():
+            ctx.labels['budget_hit:sdp_cont'] += 1
+            break
+        run_world_case(ctx, c)
+    # (thorough: four rounds over all strata, so that a short budget thins every stratum instead of dropping the last ones)
+    rounds = ctx.pick(1, 4)
+    for r in range(rounds):
+        for name, strat, total in batches:
+            part = -(-total // rounds)
+            if not ctx.quick and ctx.time_left() < extra_until:
+                ctx.labels[f'budget_hit:{name.split("/")[0]}'] += part
+                continue
+            ctx.hyp(f'{name}/{r}', lambda c: run_world_case(ctx, c), strat, max_examples=part)
     total, batch, k = ctx.n(200, 48000), ctx.pick(200, 400), 0
     strategies = {t: parser_strategy(t) for t in PARSER_TARGETS}
     while total > 0 and not ctx.out_of_time():
@@ -2104,6 +2649,16 @@ def run(ctx) -> None:
         ctx.floor(lab, 5)
     for target in PARSER_TARGETS:
         ctx.floor(f'parser:{target}', 20)
+    for kind, targets in (('le', LE_CLIENT_TARGETS), ('classic', CLASSIC_CLIENT_TARGETS)):
+        for t in targets:
+            ctx.floor(f'target:{kind}/{t}', 25)
+            ctx.floor(f'ref_ok:{t}', 15)
+            ctx.floor(f'client_call_ended_by_hostile:{t}', {'gattc': 15, 'avdtpc': 5}.get(t, 2))
+            for op in sorted(set(CLIENT_OPS[t])):
+                ctx.floor(f'client_pending:{t}/{op}', 2)
+    for lab, least in (('burst', 20), ('sdp:victim_offers_continuation', 8), ('sdp:continuation_served', 5), ('peer_silent_30s', 5),
+                       ('client_followed_up:gattc', 2), ('client_followed_up:sdpc', 2)):
+        ctx.floor(lab, least)
 
 
 def replay(ctx, case) -> None:
